@@ -651,7 +651,7 @@ class SymInt:
                     prod = self.t * num
                     if ENG.check_silent((prod % den) == 0):
                         return self._mk(prod / den, True)
-                    raise Unsupported("SymInt * %r not provably integral" % o)
+                    return SymRat(SymInt(z3.simplify(prod)), den)
             return NotImplemented
         return self._mk(_mul_t(self.t, c[0]), self.isfloat or c[1])
 
@@ -687,9 +687,17 @@ class SymInt:
         if c is not None and z3.is_int_value(c[0]) and c[0].as_long() != 0 and abs(c[0].as_long()) <= 65536:
             if ENG.check_silent((self.t % c[0]) == 0):
                 return self._mk(_floordiv_t(self.t, c[0]), True)
+        if c is not None and z3.is_int_value(c[0]) and 0 < c[0].as_long() <= 65536:
+            return SymRat(self, c[0].as_long())
         return OpaqueNumber("true division of a symbolic integer (%s / %r)" % (self, o))
 
     def __rtruediv__(self, o):
+        if isinstance(o, (int, float)) and not isinstance(o, bool):
+            if ENG.branch(self.t > 0):
+                return SymRat.of(o).__truediv__(SymRat(self, 1))
+            if ENG.branch(self.t < 0):
+                return SymRat.of(-o).__truediv__(SymRat(-self, 1))
+            raise ZeroDivisionError("division by zero")
         return OpaqueNumber("true division by a symbolic integer")
 
     def _float_op(self, name, o):
@@ -777,6 +785,110 @@ class SymInt:
     # numpy-ish helpers used by repo code on scalars
     def astype(self, _t):
         return self
+
+
+class SymRat:
+    """Exact rational num/den (num: int or SymInt, den: positive int or SymInt implied positive): the value of an
+    expression such as  symbolic_int * 0.5  or  32768 / symbolic_int.  Supports *, //, comparisons; nothing else."""
+    __slots__ = ('num', 'den')
+
+    def __init__(self, num, den):
+        if isinstance(den, SymInt):
+            if not ENG.check_silent(den.t > 0):
+                raise Unsupported("rational with a denominator that is not provably positive")
+        elif den <= 0:
+            raise Unsupported("rational with a non-positive denominator")
+        self.num, self.den = num, den
+
+    @staticmethod
+    def of(x):
+        if isinstance(x, SymRat):
+            return x
+        if isinstance(x, float):
+            n, d = x.as_integer_ratio()
+            return SymRat(n, d)
+        if isinstance(x, (int, SymInt)) and not isinstance(x, bool):
+            return SymRat(x, 1)
+        try:
+            import numpy as _np
+            if isinstance(x, _np.integer):
+                return SymRat(int(x), 1)
+            if isinstance(x, _np.floating):
+                return SymRat.of(float(x))
+        except ImportError:
+            pass
+        raise Unsupported("rational arithmetic with %r" % type(x))
+
+    def __mul__(self, o):
+        o = SymRat.of(o)
+        return SymRat(self.num * o.num, self.den * o.den)
+
+    __rmul__ = __mul__
+
+    def __truediv__(self, o):
+        o = SymRat.of(o)
+        if isinstance(o.num, SymInt):
+            if not ENG.check_silent(o.num.t > 0):
+                raise Unsupported("division by a rational of unknown sign")
+        elif o.num <= 0:
+            raise Unsupported("division by a non-positive rational")
+        return SymRat(self.num * o.den, self.den * o.num)
+
+    def __rtruediv__(self, o):
+        return SymRat.of(o).__truediv__(self)
+
+    def __floordiv__(self, o):
+        q = self.__truediv__(o)
+        return q.num // q.den
+
+    def __rfloordiv__(self, o):
+        q = SymRat.of(o).__truediv__(self)
+        return q.num // q.den
+
+    def _cmp(self, o, op):
+        o = SymRat.of(o)
+        a, b = self.num * o.den, o.num * self.den
+        return {'lt': lambda: a < b, 'le': lambda: a <= b, 'gt': lambda: a > b, 'ge': lambda: a >= b, 'eq': lambda: a == b, 'ne': lambda: a != b}[op]()
+
+    def __lt__(self, o):
+        return self._cmp(o, 'lt')
+
+    def __le__(self, o):
+        return self._cmp(o, 'le')
+
+    def __gt__(self, o):
+        return self._cmp(o, 'gt')
+
+    def __ge__(self, o):
+        return self._cmp(o, 'ge')
+
+    def __eq__(self, o):
+        try:
+            return self._cmp(o, 'eq')
+        except Unsupported:
+            return False
+
+    def __ne__(self, o):
+        r = self.__eq__(o)
+        return b_not(r)
+
+    __hash__ = None
+
+    def __neg__(self):
+        return SymRat(-self.num, self.den)
+
+    def __format__(self, spec):
+        return '<rational>'
+
+    def __str__(self):
+        return '<rational>'
+
+    __repr__ = __str__
+
+    def _no(self, *a, **k):
+        raise Unsupported("operation on a symbolic rational")
+
+    __add__ = __radd__ = __sub__ = __rsub__ = __int__ = __float__ = __index__ = __bool__ = __mod__ = _no
 
 
 class OpaqueNumber:
